@@ -45,8 +45,9 @@ def _apply(c, op, arg, float_heights):
             c.add_jumper(bib=arg, **ADD_VARIANTS[op[4:]])
         elif op == 'bar':
             c.set_bar_height(float(arg) if float_heights else arg)
-        elif op == 'badtrial':
-            c.bib_trial(arg, 'z')            # not a card letter: refused like any other forbidden call
+        elif op.startswith('badtrial'):
+            # not a card letter (or a whole card cell, which is no single trial): refused like any other forbidden call
+            c.bib_trial(arg, op.split(':', 1)[1] if ':' in op else 'z')
         elif VIA_TRIAL and op in LETTER:
             c.bib_trial(arg, LETTER[op])
         else:
